@@ -366,6 +366,32 @@ class History(object):
             self.log.append(('restore_acta',))
         return True
 
+    def op_add_atom(self):
+        """Shelxfile.add_atom(): one new atom line in front of HKLF, nothing else changes; the atom is in the atom list with an ID of its own"""
+        shx = self.shx
+        if shx.hklf is None:
+            return False
+        hi = find_entry(self.ents, shx.hklf)
+        if hi is None:
+            return False
+        n_ = getattr(self, 'added', 0) + 1
+        self.added = n_
+        name = 'X%d' % (100 + n_)
+        el = shx.sfac_table.elements_list[0]
+        xyz = [round(self.rng.uniform(0.05, 0.95), 4) for _ in range(3)]
+        pos = shx.hklf.index
+        shx.add_atom(name=name, coordinates=list(xyz), element=el)
+        new = [a for a in shx.atoms.all_atoms if a.name == name]
+        if len(new) != 1:
+            raise LookupMismatch('add_atom(%s): %d atoms of that name in the atom list' % (name, len(new)))
+        a = new[0]
+        if not any(x is a for x in shx._reslist):
+            raise LookupMismatch('add_atom(%s): the new atom is in the atom list, but the file does not hold it' % name)
+        self.mops.append(('ins', pos, str(a).split('\n'), False))
+        self.ents.insert(hi, Entry(a, lex_text(str(a)), False, 'atom'))
+        self.log.append(('add_atom', name, xyz))
+        return True
+
     def op_resi(self):
         """a residue is renumbered through the setter of its RESI instruction: the atoms in it are found under their new names"""
         cands = [i for i, e in enumerate(self.ents) if e.kind == 'RESI' and not e.absorbed and getattr(e.obj, 'residue_number', 0) > 0 and getattr(e.obj, 'residue_class', '')]
@@ -382,7 +408,7 @@ class History(object):
         self.log.append(('resi', new, cls))
         return True
 
-    OPS = ['add_line', 'insert_anis', 'delete_atom', 'rename', 'element', 'isotropic', 'plan', 'cycles', 'wght', 'acta', 'frag', 'grow', 'resi']
+    OPS = ['add_line', 'insert_anis', 'delete_atom', 'rename', 'element', 'isotropic', 'plan', 'cycles', 'wght', 'acta', 'frag', 'grow', 'resi', 'add_atom']
 
     def step(self, name=None):
         name = name or self.rng.choice(self.OPS)
